@@ -3,7 +3,9 @@ package props
 // C08: alignments returned by Global and Local are valid and score what they claim.
 
 import (
+	"bytes"
 	"fmt"
+	"github.com/fluhus/biostuff/align"
 	"testing"
 
 	"pgregory.net/rapid"
@@ -91,6 +93,22 @@ func checkC08(c AlignCase, o *Obs) error {
 	if err != nil {
 		return nil // malformed replay file
 	}
+	// An earlier call that ended in the documented panic (b aligned with itself followed by a
+	// character the matrix has no score for: high scores everywhere before the panic in the last
+	// row) leaves nothing behind for later calls.
+	if len(c.A)+len(c.B) <= 400 {
+		if alien, ok := alienByte(m); ok {
+			o.Class("after a call that panicked")
+			xa, xb := append(bytes.Clone(c.B), alien), bytes.Clone(c.B)
+			catch(func() {
+				if c.Local {
+					align.Local(xa, xb, m)
+				} else {
+					align.Global(xa, xb, m)
+				}
+			})
+		}
+	}
 	res, err := runAlign(c, m)
 	if err != nil {
 		return err
@@ -112,6 +130,39 @@ func checkC08(c AlignCase, o *Obs) error {
 	}
 	if err := res.stepsUnchanged(); err != nil {
 		return err
+	}
+	// The returned steps belong to the caller: overwriting them (spare capacity included) does
+	// not influence a later call on the same sequences.
+	{
+		raw := res.raw[:cap(res.raw)]
+		for i := range raw {
+			raw[i] = align.Step(ref.Insertion)
+			if i%2 == 1 {
+				raw[i] = align.Step(ref.Deletion)
+			}
+		}
+		again, err := runAlign(c, m)
+		if err != nil {
+			return fmt.Errorf("after the caller overwrote the steps returned by the first call: %v", err)
+		}
+		if err := checkValidity(c, rm, again, &Obs{}); err != nil {
+			return fmt.Errorf("after the caller overwrote the steps returned by the first call: %v", err)
+		}
+		if again.score != res.score {
+			return fmt.Errorf("after the caller overwrote the steps returned by the first call, the same call scores %v instead of %v", again.score, res.score)
+		}
+	}
+	// a sequence aligned with itself, the very same slice passed as both arguments
+	if len(c.A) > 0 {
+		self := c
+		self.B, self.SameSlice = c.A, true
+		resSelf, err := runAlign(self, m)
+		if err != nil {
+			return fmt.Errorf("with one slice passed as both sequences: %v", err)
+		}
+		if err := checkValidity(self, rm, resSelf, &Obs{}); err != nil {
+			return fmt.Errorf("with one slice passed as both sequences: %v", err)
+		}
 	}
 	if applyMutation(c, m, rm) {
 		o.Class("matrix changed in place between calls")
@@ -207,3 +258,17 @@ func propC08() Prop[AlignCase] {
 func TestC08(t *testing.T) { Run(t, propC08()) }
 
 func FuzzGenC08(f *testing.F) { RunFuzz(f, propC08()) }
+
+// alienByte returns a byte (not the gap symbol) for which the matrix has no score at all.
+func alienByte(m align.SubstitutionMatrix) (byte, bool) {
+	used := map[byte]bool{255: true}
+	for k := range m {
+		used[k[0]], used[k[1]] = true, true
+	}
+	for _, b := range []byte{'#', 254, 1, '~', 0} {
+		if !used[b] {
+			return b, true
+		}
+	}
+	return 0, false
+}
